@@ -43,7 +43,7 @@ func init() {
 		Families: func(c *mon.Config) []mon.Family {
 			return []mon.Family{
 				{Name: "small-all", N: len(small), Run: func(w *mon.W, idx int) { c11All(w, small[idx]) }},
-				{Name: "keyzoo-all", N: c.Pick(200, 20000), Run: func(w *mon.W, idx int) {
+				{Name: "keyzoo-all", N: c.Pick(800, 200000), Run: func(w *mon.W, idx int) {
 					ks := gen.KeyZoo(w.Rng, 1+w.Rng.Intn(3), 1+w.Rng.Intn(9))
 					k := ks[len(ks)-1]
 					if len(k) > 9 {
@@ -52,7 +52,7 @@ func init() {
 					c11All(w, k)
 				}},
 				{Name: "pathsof-structured", N: 33 * 4, Run: c11PathsOfStructured},
-				{Name: "pathsof-zoo", N: c.Pick(3000, 200000), Run: c11PathsOfZoo},
+				{Name: "pathsof-zoo", N: c.Pick(15000, 3000000), Run: c11PathsOfZoo},
 			}
 		},
 	})
